@@ -526,8 +526,21 @@ structure SheetAcc where
   visible : SheetVisible := .visible
   deriving Repr, DecidableEq
 
+/-- quick-xml `QName::prefix` of a name that has one: the text before the first `:` -/
+def prefixOf (n : String) : String := String.ofList (n.toList.takeWhile (· != ':'))
+
+/-- the attribute of `<sheet>` that carries the relationship id: any prefixed attribute with local name `id`
+    (`key.prefix()` is `Some(p)`, after fix D23) whose prefix is not `xmlns` — `xmlns:id="…"` declares a prefix named
+    `id` (after fix f69fe90, finding C01-k1 / C16-f) -/
+def relIdKey (k : String) : Prop := (afterColon k.toList).isSome = true ∧ prefixOf k ≠ "xmlns" ∧ localName k = "id"
+
+instance (k : String) : Decidable (relIdKey k) := by unfold relIdKey; infer_instance
+
+/-- the test before f69fe90: the prefix was not looked at -/
+def relIdKeyOld (k : String) : Prop := (afterColon k.toList).isSome = true ∧ localName k = "id"
+
 /-- the `for a in e.attributes()` loop of the `<sheet>` arm. The relationship id is the attribute with a prefix
-    and local name `id` (`key.prefix().is_some() && key.local_name() == b"id"`, after fix D23). -/
+    and local name `id` (`relIdKey`). -/
 def sheetAttrs (rels : List (String × String)) : List (String × String) → SheetAcc → Res SheetAcc
   | [], acc => .ok acc
   | (k, v) :: rest, acc =>
@@ -536,7 +549,7 @@ def sheetAttrs (rels : List (String × String)) : List (String × String) → Sh
       match Gen.xlsxVisTable.lookup v with
       | some vis => sheetAttrs rels rest { acc with visible := vis }
       | none => .err (unrec "sheet:state" v)
-    else if (afterColon k.toList).isSome ∧ localName k = "id" then
+    else if relIdKey k then
       match rels.lookup v with
       | some t => sheetAttrs rels rest { acc with path := xlsxPath t.toList }
       | none => .err "RelationshipNotFound"
